@@ -12,14 +12,14 @@ Proof. apply flat_map_app. Qed.
 
 (* ---------- shell.y without newlines ---------- *)
 
-Definition lb := P94_linebreak.
+Definition lb := D_linebreak_2.
 
 Lemma D_and w1 w4 : derives nt_and_or w1 -> derives nt_pipeline w4 -> derives nt_and_or (w1 ++ tkAND :: w4).
-Proof. intros H1 H2. exact (P5_and_or w1 [] w4 H1 lb H2). Qed.
+Proof. intros H1 H2. exact (D_and_or_2 w1 [] w4 H1 lb H2). Qed.
 Lemma D_or w1 w4 : derives nt_and_or w1 -> derives nt_pipeline w4 -> derives nt_and_or (w1 ++ tkOR :: w4).
-Proof. intros H1 H2. exact (P6_and_or w1 [] w4 H1 lb H2). Qed.
+Proof. intros H1 H2. exact (D_and_or_3 w1 [] w4 H1 lb H2). Qed.
 Lemma D_pipe w1 w4 : derives nt_pipe_sequence w1 -> derives nt_command w4 -> derives nt_pipe_sequence (w1 ++ tkPIPE :: w4).
-Proof. intros H1 H2. exact (P10_pipe_sequence w1 [] w4 H1 lb H2). Qed.
+Proof. intros H1 H2. exact (D_pipe_sequence_2 w1 [] w4 H1 lb H2). Qed.
 
 Definition sep_term (s : sep) : term := match s with SepSemi => tkSEMI | SepAmp => tkBACKGROUND end.
 Lemma tm_sep s : tm [print_sep s] = [sep_term s].
@@ -27,25 +27,28 @@ Proof. destruct s; reflexivity. Qed.
 Lemma D_sepop s : derives nt_separator_op [sep_term s].
 Proof. destruct s; constructor. Qed.
 Lemma D_separator s : derives nt_separator [sep_term s].
-Proof. exact (P97_separator [sep_term s] [] (D_sepop s) lb). Qed.
+Proof. exact (D_separator_1 [sep_term s] [] (D_sepop s) lb). Qed.
 
 Lemma D_term_seq w1 s w3 : derives nt_term w1 -> derives nt_and_or w3 -> derives nt_term (w1 ++ sep_term s :: w3).
-Proof. intros H1 H3. exact (P27_term w1 [sep_term s] w3 H1 (D_separator s) H3). Qed.
+Proof. intros H1 H3. exact (D_term_2 w1 [sep_term s] w3 H1 (D_separator s) H3). Qed.
 Lemma D_clist w : derives nt_term w -> derives nt_compound_list w.
-Proof. intro H. exact (P24_compound_list [] w lb H). Qed.
+Proof. intro H. exact (D_compound_list_1 [] w lb H). Qed.
 Lemma D_clist_sep w s : derives nt_term w -> derives nt_compound_list (w ++ [sep_term s]).
-Proof. intro H. exact (P25_compound_list [] w [sep_term s] lb H (D_separator s)). Qed.
+Proof. intro H. exact (D_compound_list_2 [] w [sep_term s] lb H (D_separator s)). Qed.
 
 Lemma D_do w : derives nt_compound_list w -> derives nt_do_group (tkDO :: w ++ [tkDONE]).
-Proof. apply P59_do_group. Qed.
+Proof. apply D_do_group_1. Qed.
 Lemma D_for_do w : derives nt_compound_list w -> derives nt_for_clause (tkFOR :: tkWORD :: tkDO :: w ++ [tkDONE]).
-Proof. intro H. exact (P28_for_clause [] _ lb (D_do w H)). Qed.
+Proof. intro H. exact (D_for_clause_1 [] _ lb (D_do w H)). Qed.
 Lemma D_for_in0 w : derives nt_compound_list w ->
   derives nt_for_clause (tkFOR :: tkWORD :: tkIN :: tkSEMI :: tkDO :: w ++ [tkDONE]).
-Proof. intro H. exact (P29_for_clause [] [tkSEMI] _ lb (P99_sequential_sep [] lb) (D_do w H)). Qed.
+Proof. intro H. exact (D_for_clause_3 [] [tkSEMI] _ lb (D_sequential_sep_1 [] lb) (D_do w H)). Qed.
+Lemma D_for_semi w : derives nt_compound_list w ->
+  derives nt_for_clause (tkFOR :: tkWORD :: tkSEMI :: tkDO :: w ++ [tkDONE]).
+Proof. intro H. exact (D_for_clause_2 [] _ lb (D_do w H)). Qed.
 Lemma D_for_in wl w : derives nt_wordlist wl -> derives nt_compound_list w ->
   derives nt_for_clause (tkFOR :: tkWORD :: tkIN :: wl ++ tkSEMI :: tkDO :: w ++ [tkDONE]).
-Proof. intros Hl H. exact (P30_for_clause [] wl [tkSEMI] _ lb Hl (P99_sequential_sep [] lb) (D_do w H)). Qed.
+Proof. intros Hl H. exact (D_for_clause_4 [] wl [tkSEMI] _ lb Hl (D_sequential_sep_1 [] lb) (D_do w H)). Qed.
 
 Lemma repeat_snoc {A} (a : A) n : repeat a (S n) = repeat a n ++ [a].
 Proof. induction n; simpl; [reflexivity | f_equal; exact IHn]. Qed.
@@ -56,8 +59,8 @@ Proof. induction ws; simpl; [reflexivity | f_equal; exact IHws]. Qed.
 Lemma D_wordlist n : derives nt_wordlist (repeat tkWORD (S n)).
 Proof.
   induction n.
-  - apply P31_wordlist.
-  - rewrite repeat_snoc. apply P32_wordlist. exact IHn.
+  - apply D_wordlist_1.
+  - rewrite repeat_snoc. apply D_wordlist_2. exact IHn.
 Qed.
 
 (* ---------- redirections and simple commands ---------- *)
@@ -67,10 +70,10 @@ Proof.
   destruct r as [fd o t]. unfold print_redir, tm. cbn [r_fd r_op r_target].
   destruct fd as [ds |]; destruct o; cbn [flat_map ptok_terms kw app rop_term];
     first
-      [ apply P76_io_redirect; constructor; constructor
-      | apply P77_io_redirect; constructor; constructor
-      | apply P78_io_redirect; constructor; constructor
-      | apply P79_io_redirect; constructor; constructor ].
+      [ apply D_io_redirect_1; constructor; constructor
+      | apply D_io_redirect_2; constructor; constructor
+      | apply D_io_redirect_3; constructor; constructor
+      | apply D_io_redirect_4; constructor; constructor ].
 Qed.
 
 Lemma tm_redirs_cons r rs : tm (print_redirs (r :: rs)) = tm (print_redir r) ++ tm (print_redirs rs).
@@ -87,8 +90,8 @@ Proof.
   induction rs as [| r rs IH] using rev_ind; [congruence |]. intros _.
   rewrite tm_redirs_app, tm_redirs_one. destruct rs as [| r0 rs0].
   - change (tm (print_redirs [])) with (@nil term). cbn [app].
-    apply P74_redirect_list. apply D_redir.
-  - apply P75_redirect_list; [apply IH; discriminate | apply D_redir].
+    apply D_redirect_list_1. apply D_redir.
+  - apply D_redirect_list_2; [apply IH; discriminate | apply D_redir].
 Qed.
 
 Definition tm_items (items : list sitem) : list term := tm (flat_map print_sitem items).
@@ -105,11 +108,11 @@ Proof.
   rewrite tm_items_app, tm_items_cons. change (tm_items []) with (@nil term). rewrite app_nil_r.
   destruct items as [| y items0].
   - change (tm_items []) with (@nil term). cbn [app]. destruct x as [w | r].
-    + apply P71_cmd_suffix.
-    + apply P70_cmd_suffix. apply D_redir.
+    + apply D_cmd_suffix_2.
+    + apply D_cmd_suffix_1. apply D_redir.
   - destruct x as [w | r].
-    + apply P73_cmd_suffix. apply IH. discriminate.
-    + apply P72_cmd_suffix; [apply IH; discriminate | apply D_redir].
+    + apply D_cmd_suffix_4. apply IH. discriminate.
+    + apply D_cmd_suffix_3; [apply IH; discriminate | apply D_redir].
 Qed.
 
 (* after a non-empty prefix: redirections extend the prefix, the first word is the command word *)
@@ -117,21 +120,21 @@ Lemma D_simple_tail items : forall wp, derives nt_cmd_prefix wp ->
   derives nt_simple_command (wp ++ tm_items items).
 Proof.
   induction items as [| x items IH]; intros wp Hp.
-  - change (tm_items []) with (@nil term). rewrite app_nil_r. apply P62_simple_command. exact Hp.
+  - change (tm_items []) with (@nil term). rewrite app_nil_r. apply D_simple_command_3. exact Hp.
   - rewrite tm_items_cons. destruct x as [w | r].
     + change (tm (print_sitem (SWord w))) with [tkWORD].
       destruct items as [| y items0].
       * change (tm_items []) with (@nil term). rewrite app_nil_r.
-        apply P61_simple_command; [exact Hp | apply P65_cmd_word].
-      * apply P60_simple_command; [exact Hp | apply P65_cmd_word | apply D_suffix; discriminate].
-    + rewrite app_assoc. apply IH. apply P68_cmd_prefix; [exact Hp | apply D_redir].
+        apply D_simple_command_2; [exact Hp | apply D_cmd_word_1].
+      * apply D_simple_command_1; [exact Hp | apply D_cmd_word_1 | apply D_suffix; discriminate].
+    + rewrite app_assoc. apply IH. apply D_cmd_prefix_3; [exact Hp | apply D_redir].
 Qed.
 
 Lemma D_assigns n : derives nt_cmd_prefix (repeat tkASSIGNMENT_WORD (S n)).
 Proof.
   induction n.
-  - apply P67_cmd_prefix.
-  - rewrite repeat_snoc. apply P69_cmd_prefix. exact IHn.
+  - apply D_cmd_prefix_2.
+  - rewrite repeat_snoc. apply D_cmd_prefix_4. exact IHn.
 Qed.
 
 Lemma tm_assigns (assigns : list tok) :
@@ -151,9 +154,9 @@ Proof.
     destruct x as [w | r].
     + rewrite tm_items_cons. change (tm (print_sitem (SWord w))) with [tkWORD]. cbn [app].
       destruct items as [| y items0].
-      * apply P64_simple_command.
-      * apply P63_simple_command. apply D_suffix. discriminate.
-    + rewrite tm_items_cons. apply D_simple_tail. apply P66_cmd_prefix. apply D_redir.
+      * apply D_simple_command_5.
+      * apply D_simple_command_4. apply D_suffix. discriminate.
+    + rewrite tm_items_cons. apply D_simple_tail. apply D_cmd_prefix_1. apply D_redir.
   - cbn [length]. apply D_simple_tail. apply D_assigns.
 Qed.
 
@@ -168,7 +171,7 @@ Proof.
   - simpl. rewrite app_nil_r. exact Hw.
   - cbn [print_pats]. change (tm (kw s_pipe tkPIPE :: P1 p tkWORD :: print_pats ps))
       with ([tkPIPE; tkWORD] ++ tm (print_pats ps)).
-    rewrite app_assoc. apply IH. apply P49_pattern. exact Hw.
+    rewrite app_assoc. apply IH. apply D_pattern_2. exact Hw.
 Qed.
 
 Lemma D_selector lp p ps : derives nt_case_selector (tm (print_selector lp p ps)).
@@ -177,12 +180,12 @@ Proof.
   change (tm (P1 p tkWORD :: print_pats ps ++ [kw s_rparen tkRPAREN]))
     with ([tkWORD] ++ tm (print_pats ps ++ [kw s_rparen tkRPAREN])).
   rewrite tm_app. change (tm [kw s_rparen tkRPAREN]) with [tkRPAREN].
-  assert (Hp : derives nt_pattern ([tkWORD] ++ tm (print_pats ps))) by (apply D_pattern; apply P48_pattern).
+  assert (Hp : derives nt_pattern ([tkWORD] ++ tm (print_pats ps))) by (apply D_pattern; apply D_pattern_1).
   destruct lp; cbn [print_lp tm flat_map ptok_terms kw app].
   - rewrite app_comm_cons. change (tkWORD :: tm (print_pats ps)) with ([tkWORD] ++ tm (print_pats ps)).
-    apply (P40_case_selector _ Hp).
+    apply (D_case_selector_1 _ Hp).
   - rewrite app_comm_cons. change (tkWORD :: tm (print_pats ps)) with ([tkWORD] ++ tm (print_pats ps)).
-    apply (P41_case_selector _ Hp).
+    apply (D_case_selector_2 _ Hp).
 Qed.
 
 (* ---------- induction over the nine mutually inductive types ---------- *)
@@ -212,8 +215,8 @@ Qed.
 Lemma D_pipeline bang w : derives nt_pipe_sequence w -> derives nt_pipeline (tm (print_bang bang) ++ w).
 Proof.
   intro H. destruct bang; cbn [print_bang tm flat_map ptok_terms kw app].
-  - apply P8_pipeline. exact H.
-  - apply P7_pipeline. exact H.
+  - apply D_pipeline_2. exact H.
+  - apply D_pipeline_1. exact H.
 Qed.
 
 Ltac split_and H :=
@@ -230,58 +233,61 @@ Definition else_goal (e : elsepart) : Prop :=
   e = ENone \/ exists w, tm (print_else e) = w ++ [tkFI] /\ derives nt_else_part w.
 
 Theorem ast_in_grammar :
-  (forall c, wf_cmd c = true -> nosemi_cmd c = true -> derives nt_command (tm (print_cmd c))) /\
-  (forall k, wf_compound k = true -> nosemi_compound k = true -> derives nt_compound_command (tm (print_compound k))) /\
-  (forall e, wf_else e = true -> nosemi_else e = true -> else_goal e) /\
-  (forall i, wf_items i = true -> nosemi_items i = true -> items_goal i) /\
-  (forall b, wf_body b = true -> nosemi_body b = true ->
+  (forall c, wf_cmd c = true -> derives nt_command (tm (print_cmd c))) /\
+  (forall k, wf_compound k = true -> derives nt_compound_command (tm (print_compound k))) /\
+  (forall e, wf_else e = true -> else_goal e) /\
+  (forall i, wf_items i = true -> items_goal i) /\
+  (forall b, wf_body b = true ->
      match b with BNone => True | BSome l => derives nt_term (tm (print_seq (seq_of l))) end) /\
-  (forall p, wf_pipe p = true -> nosemi_pipe p = true -> derives nt_pipe_sequence (tm (print_pipe p))) /\
-  (forall a, wf_andor a = true -> nosemi_andor a = true -> derives nt_and_or (tm (print_andor a))) /\
-  (forall q, wf_seq q = true -> nosemi_seq q = true -> derives nt_term (tm (print_seq q))) /\
-  (forall l, wf_clist l = true -> nosemi_clist l = true -> derives nt_term (tm (print_seq (seq_of l)))).
+  (forall p, wf_pipe p = true -> derives nt_pipe_sequence (tm (print_pipe p))) /\
+  (forall a, wf_andor a = true -> derives nt_and_or (tm (print_andor a))) /\
+  (forall q, wf_seq q = true -> derives nt_term (tm (print_seq q))) /\
+  (forall l, wf_clist l = true -> derives nt_term (tm (print_seq (seq_of l)))).
 Proof.
   apply posix_mutind.
   - (* CSimple *)
-    intros assigns items Hwf _. apply P11_command. apply D_simple.
+    intros assigns items Hwf. apply D_command_1. apply D_simple.
     cbn [wf_cmd] in Hwf. unfold simple_ok in Hwf. split_and Hwf.
     destruct assigns, items; try exact I. discriminate.
   - (* CCompound *)
-    intros k IHk rs Hwf Hns. cbn [wf_cmd] in Hwf. split_and Hwf. cbn [nosemi_cmd] in Hns.
+    intros k IHk rs Hwf. cbn [wf_cmd] in Hwf. split_and Hwf.
     cbn [print_cmd]. rewrite tm_app. destruct rs as [| r rs].
     + change (tm (print_redirs [])) with (@nil term). rewrite app_nil_r.
-      apply P12_command. apply IHk; assumption.
-    + apply P13_command; [apply IHk; assumption | apply D_redirs; discriminate].
+      apply D_command_2. apply IHk; assumption.
+    + apply D_command_3; [apply IHk; assumption | apply D_redirs; discriminate].
   - (* CFuncDef *)
-    intros name body IHk rs Hwf Hns. cbn [wf_cmd] in Hwf. split_and Hwf. cbn [nosemi_cmd] in Hns.
+    intros name body IHk rs Hwf. cbn [wf_cmd] in Hwf. split_and Hwf.
     cbn [print_cmd].
     change (tm (P1 name tkWORD :: kw s_lparen tkLPAREN :: kw s_rparen tkRPAREN :: print_compound body ++ print_redirs rs))
       with ([tkWORD; tkLPAREN; tkRPAREN] ++ tm (print_compound body ++ print_redirs rs)).
     rewrite tm_app, app_assoc.
     assert (Hf : derives nt_function_definition ([tkWORD; tkLPAREN; tkRPAREN] ++ tm (print_compound body)))
-      by (exact (P57_function_definition [] _ lb (IHk ltac:(assumption) ltac:(assumption)))).
+      by (exact (D_function_definition_1 [] _ lb (IHk ltac:(assumption)))).
     destruct rs as [| r rs].
-    + change (tm (print_redirs [])) with (@nil term). rewrite app_nil_r. apply P14_command. exact Hf.
-    + apply P15_command; [exact Hf | apply D_redirs; discriminate].
+    + change (tm (print_redirs [])) with (@nil term). rewrite app_nil_r. apply D_command_4. exact Hf.
+    + apply D_command_5; [exact Hf | apply D_redirs; discriminate].
   - (* KBrace *)
-    intros l IH Hwf Hns. cbn [wf_compound nosemi_compound] in *. cbn [print_compound].
+    intros l IH Hwf. cbn [wf_compound] in *. cbn [print_compound].
     change (tm (kw s_lbrace tkLBRACE :: print_clist l ++ [kw s_rbrace tkRBRACE]))
       with (tkLBRACE :: tm (print_clist l ++ [kw s_rbrace tkRBRACE])).
-    rewrite tm_app. apply P16_compound_command. apply P58_brace_group.
+    rewrite tm_app. apply D_compound_command_1. apply D_brace_group_1.
     apply D_clist_of_term. apply IH; assumption.
   - (* KSubshell *)
-    intros l IH Hwf Hns. cbn [wf_compound nosemi_compound] in *. cbn [print_compound].
+    intros l IH Hwf. cbn [wf_compound] in *. cbn [print_compound].
     change (tm (kw s_lparen tkLPAREN :: print_clist l ++ [kw s_rparen tkRPAREN]))
       with (tkLPAREN :: tm (print_clist l ++ [kw s_rparen tkRPAREN])).
-    rewrite tm_app. apply P17_compound_command. apply P23_subshell.
+    rewrite tm_app. apply D_compound_command_2. apply D_subshell_1.
     apply D_clist_of_term. apply IH; assumption.
   - (* KFor *)
-    intros name m body IH Hwf Hns. cbn [wf_compound] in Hwf. split_and Hwf.
-    cbn [nosemi_compound] in Hns. apply P18_compound_command. cbn [print_compound].
-    destruct m as [| | ws]; [| discriminate |].
+    intros name m body IH Hwf. cbn [wf_compound] in Hwf. split_and Hwf.
+    apply D_compound_command_3. cbn [print_compound].
+    destruct m as [| | ws].
     + change (tm (kw s_for tkFOR :: P1 name tkWORD :: [] ++ kw s_do tkDO :: print_clist body ++ [kw s_done tkDONE]))
         with (tkFOR :: tkWORD :: tkDO :: tm (print_clist body ++ [kw s_done tkDONE])).
       rewrite tm_app. apply D_for_do. apply D_clist_of_term. apply IH; assumption.
+    + change (tm (kw s_for tkFOR :: P1 name tkWORD :: [kw s_semi tkSEMI] ++ kw s_do tkDO :: print_clist body ++ [kw s_done tkDONE]))
+        with (tkFOR :: tkWORD :: tkSEMI :: tkDO :: tm (print_clist body ++ [kw s_done tkDONE])).
+      rewrite tm_app. apply D_for_semi. apply D_clist_of_term. apply IH; assumption.
     + change (tm (kw s_for tkFOR :: P1 name tkWORD :: (kw s_in tkIN :: print_words ws ++ [kw s_semi tkSEMI]) ++
                   kw s_do tkDO :: print_clist body ++ [kw s_done tkDONE]))
         with (tkFOR :: tkWORD :: tkIN :: tm ((print_words ws ++ [kw s_semi tkSEMI]) ++
@@ -297,13 +303,13 @@ Proof.
       * cbn [length repeat app]. apply D_for_in0. exact Hb'.
       * cbn [length]. apply D_for_in; [apply D_wordlist | exact Hb'].
   - (* KCase *)
-    intros w items IH Hwf Hns. cbn [wf_compound] in Hwf. split_and Hwf. cbn [nosemi_compound] in Hns.
-    apply P19_compound_command. cbn [print_compound].
-    exact (IH ltac:(assumption) ltac:(assumption) [] (or_introl eq_refl)).
+    intros w items IH Hwf. cbn [wf_compound] in Hwf. split_and Hwf.
+    apply D_compound_command_4. cbn [print_compound].
+    exact (IH ltac:(assumption) [] (or_introl eq_refl)).
   - (* KIf *)
-    intros c IHc t IHt e IHe Hwf Hns. cbn [wf_compound] in Hwf. split_and Hwf.
-    cbn [nosemi_compound] in Hns. split_and Hns.
-    apply P20_compound_command. cbn [print_compound].
+    intros c IHc t IHt e IHe Hwf. cbn [wf_compound] in Hwf. split_and Hwf.
+   
+    apply D_compound_command_5. cbn [print_compound].
     change (tm (kw s_if tkIF :: print_clist c ++ kw s_then tkTHEN :: print_clist t ++ print_else e))
       with (tkIF :: tm (print_clist c ++ kw s_then tkTHEN :: print_clist t ++ print_else e)).
     rewrite tm_app.
@@ -311,40 +317,40 @@ Proof.
     rewrite tm_app.
     assert (Hc : derives nt_compound_list (tm (print_clist c))) by (apply D_clist_of_term; apply IHc; assumption).
     assert (Ht : derives nt_compound_list (tm (print_clist t))) by (apply D_clist_of_term; apply IHt; assumption).
-    destruct (IHe ltac:(assumption) ltac:(assumption)) as [-> | (we & Heq & He)].
-    + change (tm (print_else ENone)) with [tkFI]. apply P51_if_clause; assumption.
-    + rewrite Heq. apply P50_if_clause; assumption.
+    destruct (IHe ltac:(assumption)) as [-> | (we & Heq & He)].
+    + change (tm (print_else ENone)) with [tkFI]. apply D_if_clause_2; assumption.
+    + rewrite Heq. apply D_if_clause_1; assumption.
   - (* KWhile *)
-    intros c IHc b IHb Hwf Hns. cbn [wf_compound] in Hwf. split_and Hwf.
-    cbn [nosemi_compound] in Hns. split_and Hns.
-    apply P21_compound_command. cbn [print_compound].
+    intros c IHc b IHb Hwf. cbn [wf_compound] in Hwf. split_and Hwf.
+   
+    apply D_compound_command_6. cbn [print_compound].
     change (tm (kw s_while tkWHILE :: print_clist c ++ kw s_do tkDO :: print_clist b ++ [kw s_done tkDONE]))
       with (tkWHILE :: tm (print_clist c ++ kw s_do tkDO :: print_clist b ++ [kw s_done tkDONE])).
     rewrite tm_app.
     change (tm (kw s_do tkDO :: print_clist b ++ [kw s_done tkDONE])) with (tkDO :: tm (print_clist b ++ [kw s_done tkDONE])).
     rewrite tm_app. change (tm [kw s_done tkDONE]) with [tkDONE].
-    apply P55_while_clause; [| apply D_do]; apply D_clist_of_term; [apply IHc | apply IHb]; assumption.
+    apply D_while_clause_1; [| apply D_do]; apply D_clist_of_term; [apply IHc | apply IHb]; assumption.
   - (* KUntil *)
-    intros c IHc b IHb Hwf Hns. cbn [wf_compound] in Hwf. split_and Hwf.
-    cbn [nosemi_compound] in Hns. split_and Hns.
-    apply P22_compound_command. cbn [print_compound].
+    intros c IHc b IHb Hwf. cbn [wf_compound] in Hwf. split_and Hwf.
+   
+    apply D_compound_command_7. cbn [print_compound].
     change (tm (kw s_until tkUNTIL :: print_clist c ++ kw s_do tkDO :: print_clist b ++ [kw s_done tkDONE]))
       with (tkUNTIL :: tm (print_clist c ++ kw s_do tkDO :: print_clist b ++ [kw s_done tkDONE])).
     rewrite tm_app.
     change (tm (kw s_do tkDO :: print_clist b ++ [kw s_done tkDONE])) with (tkDO :: tm (print_clist b ++ [kw s_done tkDONE])).
     rewrite tm_app. change (tm [kw s_done tkDONE]) with [tkDONE].
-    apply P56_until_clause; [| apply D_do]; apply D_clist_of_term; [apply IHc | apply IHb]; assumption.
+    apply D_until_clause_1; [| apply D_do]; apply D_clist_of_term; [apply IHc | apply IHb]; assumption.
   - (* ENone *)
-    intros _ _. left. reflexivity.
+    intros _. left. reflexivity.
   - (* EElse *)
-    intros l IH Hwf Hns. cbn [wf_else nosemi_else] in *. right.
+    intros l IH Hwf. cbn [wf_else] in *. right.
     exists (tkELSE :: tm (print_clist l)). split.
     + cbn [print_else]. change (tm (kw s_else tkELSE :: print_clist l ++ [kw s_fi tkFI]))
         with (tkELSE :: tm (print_clist l ++ [kw s_fi tkFI])). rewrite tm_app. reflexivity.
-    + apply P54_else_part. apply D_clist_of_term. apply IH; assumption.
+    + apply D_else_part_3. apply D_clist_of_term. apply IH; assumption.
   - (* EElif *)
-    intros c IHc t IHt e IHe Hwf Hns. cbn [wf_else] in Hwf. split_and Hwf.
-    cbn [nosemi_else] in Hns. split_and Hns. right.
+    intros c IHc t IHt e IHe Hwf. cbn [wf_else] in Hwf. split_and Hwf.
+    right.
     assert (Hc : derives nt_compound_list (tm (print_clist c))) by (apply D_clist_of_term; apply IHc; assumption).
     assert (Ht : derives nt_compound_list (tm (print_clist t))) by (apply D_clist_of_term; apply IHt; assumption).
     cbn [print_else].
@@ -353,86 +359,86 @@ Proof.
     rewrite tm_app.
     change (tm (kw s_then tkTHEN :: print_clist t ++ print_else e)) with (tkTHEN :: tm (print_clist t ++ print_else e)).
     rewrite tm_app.
-    destruct (IHe ltac:(assumption) ltac:(assumption)) as [-> | (we & Heq & He)].
+    destruct (IHe ltac:(assumption)) as [-> | (we & Heq & He)].
     + exists (tkELIF :: tm (print_clist c) ++ tkTHEN :: tm (print_clist t)). split.
       * change (tm (print_else ENone)) with [tkFI]. cbn [app]. rewrite <- ?app_assoc. reflexivity.
-      * apply P52_else_part; assumption.
+      * apply D_else_part_1; assumption.
     + exists (tkELIF :: tm (print_clist c) ++ tkTHEN :: tm (print_clist t) ++ we). split.
       * rewrite Heq. cbn [app]. rewrite <- ?app_assoc. cbn [app]. rewrite <- ?app_assoc. reflexivity.
-      * apply P53_else_part; assumption.
+      * apply D_else_part_2; assumption.
   - (* CINil *)
-    intros _ _ w0 [-> | Hw0].
-    + exact (P35_case_clause [] [] lb lb).
-    + exact (P33_case_clause [] [] w0 lb lb Hw0).
+    intros _ w0 [-> | Hw0].
+    + exact (D_case_clause_3 [] [] lb lb).
+    + exact (D_case_clause_1 [] [] w0 lb lb Hw0).
   - (* CILast *)
-    intros lp p ps body IHb Hwf Hns w0 Hw0. cbn [wf_items] in Hwf. split_and Hwf. cbn [nosemi_items] in Hns.
+    intros lp p ps body IHb Hwf w0 Hw0. cbn [wf_items] in Hwf. split_and Hwf.
     cbn [print_items]. rewrite tm_app, tm_app. change (tm [kw s_esac tkESAC]) with [tkESAC].
     assert (Hitem : derives nt_case_item_ns (tm (print_selector lp p ps) ++ tm (print_body body))).
     { destruct body as [| l].
       - change (tm (print_body BNone)) with (@nil term).
-        exact (P42_case_item_ns _ [] (D_selector lp p ps) lb).
-      - specialize (IHb ltac:(assumption) ltac:(assumption)). cbn beta iota in IHb. destruct l as [q [s |]]; cbn [seq_of] in IHb.
+        exact (D_case_item_ns_1 _ [] (D_selector lp p ps) lb).
+      - specialize (IHb ltac:(assumption)). cbn beta iota in IHb. destruct l as [q [s |]]; cbn [seq_of] in IHb.
         + cbn [print_body print_clist]. rewrite tm_app, tm_sep.
           replace (tm (print_selector lp p ps) ++ tm (print_seq q) ++ [sep_term s])
             with (tm (print_selector lp p ps) ++ [] ++ tm (print_seq q) ++ [sep_term s] ++ []) by reflexivity.
-          exact (P44_case_item_ns _ [] _ _ [] (D_selector lp p ps) lb IHb (D_sepop s) lb).
+          exact (D_case_item_ns_3 _ [] _ _ [] (D_selector lp p ps) lb IHb (D_sepop s) lb).
         + cbn [print_body print_clist].
           replace (tm (print_selector lp p ps) ++ tm (print_seq q))
             with (tm (print_selector lp p ps) ++ [] ++ tm (print_seq q) ++ []) by (cbn [app]; rewrite app_nil_r; reflexivity).
-          exact (P43_case_item_ns _ [] _ [] (D_selector lp p ps) lb IHb lb). }
+          exact (D_case_item_ns_2 _ [] _ [] (D_selector lp p ps) lb IHb lb). }
     rewrite (app_assoc (tm (print_selector lp p ps))).
     destruct Hw0 as [-> | Hw0].
-    + cbn [app]. exact (P34_case_clause [] [] _ lb lb (P36_case_list_ns _ Hitem)).
-    + rewrite (app_assoc w0). exact (P34_case_clause [] [] _ lb lb (P37_case_list_ns _ _ Hw0 Hitem)).
+    + cbn [app]. exact (D_case_clause_2 [] [] _ lb lb (D_case_list_ns_1 _ Hitem)).
+    + rewrite (app_assoc w0). exact (D_case_clause_2 [] [] _ lb lb (D_case_list_ns_2 _ _ Hw0 Hitem)).
   - (* CICons *)
-    intros lp p ps body IHb rest IHr Hwf Hns w0 Hw0. cbn [wf_items] in Hwf. split_and Hwf.
-    cbn [nosemi_items] in Hns. split_and Hns.
+    intros lp p ps body IHb rest IHr Hwf w0 Hw0. cbn [wf_items] in Hwf. split_and Hwf.
+   
     cbn [print_items]. rewrite tm_app, tm_app.
     change (tm (kw s_semisemi tkSEMISEMI :: print_items rest)) with ([tkSEMISEMI] ++ tm (print_items rest)).
     assert (Hitem : derives nt_case_item (tm (print_selector lp p ps) ++ tm (print_body body) ++ [tkSEMISEMI])).
     { destruct body as [| l].
       - change (tm (print_body BNone)) with (@nil term).
-        exact (P45_case_item _ [] [] (D_selector lp p ps) lb lb).
-      - specialize (IHb ltac:(assumption) ltac:(assumption)). cbn beta iota in IHb.
-        exact (P46_case_item _ _ [] (D_selector lp p ps) (D_clist_of_term l IHb) lb). }
+        exact (D_case_item_1 _ [] [] (D_selector lp p ps) lb lb).
+      - specialize (IHb ltac:(assumption)). cbn beta iota in IHb.
+        exact (D_case_item_2 _ _ [] (D_selector lp p ps) (D_clist_of_term l IHb) lb). }
     replace (w0 ++ tm (print_selector lp p ps) ++ tm (print_body body) ++ [tkSEMISEMI] ++ tm (print_items rest))
       with ((w0 ++ tm (print_selector lp p ps) ++ tm (print_body body) ++ [tkSEMISEMI]) ++ tm (print_items rest))
       by (rewrite <- !app_assoc; reflexivity).
-    apply (IHr ltac:(assumption) ltac:(assumption)). right.
+    apply (IHr ltac:(assumption)). right.
     destruct Hw0 as [-> | Hw0].
-    + cbn [app]. apply P38_case_list. exact Hitem.
-    + apply P39_case_list; assumption.
+    + cbn [app]. apply D_case_list_1. exact Hitem.
+    + apply D_case_list_2; assumption.
   - (* BNone *)
-    intros _ _. exact I.
+    intros _. exact I.
   - (* BSome *)
-    intros l IH Hwf Hns. cbn [wf_body nosemi_body] in *. apply IH; assumption.
+    intros l IH Hwf. cbn [wf_body] in *. apply IH; assumption.
   - (* PCmd *)
-    intros c IH Hwf Hns. cbn [wf_pipe nosemi_pipe print_pipe] in *. apply P9_pipe_sequence. apply IH; assumption.
+    intros c IH Hwf. cbn [wf_pipe print_pipe] in *. apply D_pipe_sequence_1. apply IH; assumption.
   - (* PPipe *)
-    intros p IHp c IHc Hwf Hns. cbn [wf_pipe] in Hwf. split_and Hwf. cbn [nosemi_pipe] in Hns. split_and Hns.
+    intros p IHp c IHc Hwf. cbn [wf_pipe] in Hwf. split_and Hwf.
     cbn [print_pipe]. rewrite tm_app.
     change (tm (kw s_pipe tkPIPE :: print_cmd c)) with (tkPIPE :: tm (print_cmd c)).
     apply D_pipe; [apply IHp | apply IHc]; assumption.
   - (* AOne *)
-    intros bang p IH Hwf Hns. cbn [wf_andor nosemi_andor print_andor] in *. rewrite tm_app.
-    apply P4_and_or. apply D_pipeline. apply IH; assumption.
+    intros bang p IH Hwf. cbn [wf_andor print_andor] in *. rewrite tm_app.
+    apply D_and_or_1. apply D_pipeline. apply IH; assumption.
   - (* AAnd *)
-    intros a IHa bang p IHp Hwf Hns. cbn [wf_andor] in Hwf. split_and Hwf. cbn [nosemi_andor] in Hns. split_and Hns.
+    intros a IHa bang p IHp Hwf. cbn [wf_andor] in Hwf. split_and Hwf.
     cbn [print_andor]. rewrite tm_app.
     change (tm (kw s_andand tkAND :: print_bang bang ++ print_pipe p)) with (tkAND :: tm (print_bang bang ++ print_pipe p)).
     rewrite tm_app. apply D_and; [apply IHa; assumption | apply D_pipeline; apply IHp; assumption].
   - (* AOr *)
-    intros a IHa bang p IHp Hwf Hns. cbn [wf_andor] in Hwf. split_and Hwf. cbn [nosemi_andor] in Hns. split_and Hns.
+    intros a IHa bang p IHp Hwf. cbn [wf_andor] in Hwf. split_and Hwf.
     cbn [print_andor]. rewrite tm_app.
     change (tm (kw s_oror tkOR :: print_bang bang ++ print_pipe p)) with (tkOR :: tm (print_bang bang ++ print_pipe p)).
     rewrite tm_app. apply D_or; [apply IHa; assumption | apply D_pipeline; apply IHp; assumption].
   - (* QOne *)
-    intros a IH Hwf Hns. cbn [wf_seq nosemi_seq print_seq] in *. apply P26_term. apply IH; assumption.
+    intros a IH Hwf. cbn [wf_seq print_seq] in *. apply D_term_1. apply IH; assumption.
   - (* QSeq *)
-    intros q IHq s a IHa Hwf Hns. cbn [wf_seq] in Hwf. split_and Hwf. cbn [nosemi_seq] in Hns. split_and Hns.
+    intros q IHq s a IHa Hwf. cbn [wf_seq] in Hwf. split_and Hwf.
     cbn [print_seq]. rewrite tm_app.
     replace (tm (print_sep s :: print_andor a)) with (sep_term s :: tm (print_andor a)) by (destruct s; reflexivity).
     apply D_term_seq; [apply IHq | apply IHa]; assumption.
   - (* CL *)
-    intros q IH last Hwf Hns. cbn [wf_clist nosemi_clist seq_of] in *. apply IH; assumption.
+    intros q IH last Hwf. cbn [wf_clist seq_of] in *. apply IH; assumption.
 Qed.
